@@ -36,3 +36,9 @@ def run(ctx, rep):
     from rules import c07 as _c07
     common.share(_c07, ctx, rep, {"C07-RANK", "C07-ORD-DELEGATE", "C07-CASCADE"})
     P.limiter_machine(rep, lib, rid="C03-LIMITER-MACHINE")
+    # the select stage of the composition: every --select derives its context with with_result, which appends the one
+    # result and leaves the input, the parents and the bindings as they are (shared with C12; anchor of this property:
+    # "row construction from selections: Context::with_result")
+    from rules import c12 as _c12
+    common.share(_c12, ctx, rep, {"C12-FRAME", "C12-EXTEND"}, key_prefixes=["with_result"],
+                 floors={"C12-FRAME": 0, "C12-EXTEND": 0})
